@@ -2,6 +2,7 @@ package layout
 
 import (
 	"fmt"
+	"sort"
 	"strings"
 
 	pr "github.com/benoitkugler/webrender/css/properties"
@@ -722,7 +723,12 @@ func (context *layoutContext) makePage(rootBox bo.BlockLevelBoxITF, pageType uti
 		contextOutOfFlow = context.brokenOutOfFlow
 	)
 	context.brokenOutOfFlow = make(map[Box]brokenBox) // new map
+	brokenBoxes := make([]brokenBox, 0, len(contextOutOfFlow))
 	for _, v := range contextOutOfFlow {
+		brokenBoxes = append(brokenBoxes, v)
+	}
+	sort.Slice(brokenBoxes, func(i, j int) bool { return brokenBoxes[i].seq < brokenBoxes[j].seq })
+	for _, v := range brokenBoxes {
 		box, containingBlock := v.box, v.containingBlock
 		box.Box().PositionY = rootBox.Box().ContentBoxY()
 
@@ -742,7 +748,7 @@ func (context *layoutContext) makePage(rootBox bo.BlockLevelBoxITF, pageType uti
 		}
 		outOfFlowBoxes = append(outOfFlowBoxes, outOfFlowBox)
 		if outOfFlowResumeAt != nil {
-			context.brokenOutOfFlow[outOfFlowBox] = brokenBox{box, containingBlock, outOfFlowResumeAt}
+			context.brokenOutOfFlow[outOfFlowBox] = context.newBrokenBox(box, containingBlock, outOfFlowResumeAt)
 		}
 	}
 
